@@ -132,9 +132,9 @@ class ArrayMap(Map):
     def collect(self, ebpf):
         collection = []
 
-        for prog in chain([ebpf], ebpf.subprograms):
+        for prog in dict.fromkeys(chain([ebpf], ebpf.subprograms)):
+            unique = set()  # an overriding declaration hides the inherited one
             for cls in prog.__class__.__mro__:
-                unique = set()
                 for k, v in cls.__dict__.items():
                     if isinstance(v, ArrayGlobalVarDesc) and v.map is self \
                             and k not in unique:
